@@ -54,9 +54,12 @@ package printer
 //@        && len(targ("Fprintf", 2, hdr)) == 2 && typeIs(targ("Fprintf", 2, hdr)[0], "string") && typeIs(targ("Fprintf", 2, hdr)[1], "string")
 //@        && dyn(targ("Fprintf", 2, hdr)[0], "string") == t.Date.Range.Text[t.Date.Range.Start:t.Date.Range.End]
 //@        && dyn(targ("Fprintf", 2, hdr)[1], "string") == t.Description.Content.Text[t.Description.Content.Start:t.Description.Content.End]
+//@   ensures [C08] @addons: result == nil ==> hdr == old(tlen()) + (t.Addons.Accrual.Range.Start != t.Addons.Accrual.Range.End ? 1 : 0) + (t.Addons.Performance.Range.Start != t.Addons.Performance.Range.End ? 1 : 0)
+//@        && (t.Addons.Accrual.Range.Start != t.Addons.Accrual.Range.End ==> tkind(old(tlen())) == kind("printAccrual") && targ("printAccrual", 0, old(tlen())) == t.Addons.Accrual)
+//@        && (t.Addons.Performance.Range.Start != t.Addons.Performance.Range.End ==> tkind(hdr - 1) == kind("Fprintf") && targ("Fprintf", 1, hdr - 1) == "@performance(%s)\n")
 //@   ensures [C08] @bookings: result == nil ==> tlen() == hdr + 1 + len(t.Bookings)
 //@        && (forall k int :: {t.Bookings[k]} 0 <= k && k < len(t.Bookings) ==> tkind(hdr + 1 + k) == kind("printPosting") && targ("printPosting", 0, hdr + 1 + k) == t.Bookings[k])
-//@   loop 1 invariant 0 <= $i && $i <= len($range)
+//@   loop 1 invariant 0 <= $i && $i <= len($range) && tlen() == entry(tlen())
 //@   loop 2 ghost hdr := entry(tlen()) - 1
 //@   loop 2 invariant 0 <= $i && $i <= len($range) && $range == t.Bookings && tlen() == entry(tlen()) + $i
 //@   loop 2 invariant forall k int :: {t.Bookings[k]} 0 <= k && k < $i ==> tkind(entry(tlen()) + k) == kind("printPosting") && targ("printPosting", 0, entry(tlen()) + k) == t.Bookings[k]
